@@ -473,10 +473,82 @@ def run_nofield_variants(ctx, n):
             ctx.violation(case, {"call": runs[0]}, "a variant is attempted at most once per call", "a variant's pre hook ran twice for one input", lambda f: False)
 
 
+def run_field_variant_errors(ctx, n):
+    """a discriminator WITH a field: the selected variant is deserialized once.  An exception raised INSIDE the variant
+    (here by its pre-deserialize hook: KeyError / AttributeError / ValueError, always or only on the first invocation)
+    is the caller's business: it must not be mistaken for "tag not registered yet" (a rescan and a second attempt, the
+    hook running twice) nor be relabelled as SuitableVariantNotFoundError."""
+    import dataclasses
+    import typing
+
+    from mashumaro import DataClassDictMixin
+    from mashumaro.config import BaseConfig
+    from mashumaro.types import Discriminator
+
+    rng = ctx.rng
+    for i in range(n):
+        mode = rng.choice(["config", "annotated-plain", "annotated-mixin"])
+        exc = rng.choice([KeyError, AttributeError, ValueError])
+        when = rng.choice(["always", "first"])
+        warm = rng.random() < 0.5            # a successful call of another input before
+        case = {"field_variant_error": {"mode": mode, "exception": exc.__name__, "when": when, "warm": warm}}
+        ctx.count(case, True, kind=f"field-variant-error:{mode}")
+        trace, fired = [], []
+
+        def mk(name, bases, ann, ns, hook=False):
+            def pre(cls, d, _n=name):
+                trace.append(f"pre {_n}")
+                if hook and d.get("boom") and (when == "always" or not fired):
+                    fired.append(1)
+                    raise exc("raised by the hook")
+                return d
+
+            c = type(name, bases, {"__annotations__": ann, "__module__": __name__, "__pre_deserialize__": classmethod(pre), **ns})
+            globals()[name] = c
+            return dataclasses.dataclass(c)
+
+        names = []
+        try:
+            disc = Discriminator(field="type", include_subtypes=True)
+            if mode == "config":
+                Base = mk(f"FV{i}_B", (DataClassDictMixin,), {}, {"Config": type("Config", (BaseConfig,), {"discriminator": disc})})
+            else:
+                Base = mk(f"FV{i}_B", (DataClassDictMixin,) if mode == "annotated-mixin" else (), {}, {})
+            V1 = mk(f"FV{i}_V1", (Base,), {"type": str, "a": int}, {"type": "v1", "a": 0}, hook=True)
+            V2 = mk(f"FV{i}_V2", (Base,), {"type": str, "b": int}, {"type": "v2", "b": 0})
+            names += [Base.__name__, V1.__name__, V2.__name__]
+            if mode == "config":
+                call = lambda d: Base.from_dict(d)   # noqa: E731
+            else:
+                H = mk(f"FV{i}_H", (DataClassDictMixin,), {"x": typing.Annotated[Base, disc]}, {})
+                names.append(H.__name__)
+                call = lambda d: H.from_dict({"x": d})   # noqa: E731
+            if warm:
+                call({"type": "v1", "a": 1})
+            trace.clear()
+            try:
+                r = call({"type": "v1", "a": 2, "boom": True})
+                out = "ok:" + type(getattr(r, "x", r)).__name__
+            except Exception as e:  # noqa
+                root = e
+                while root.__cause__ is not None or (root.__context__ is not None and not root.__suppress_context__):
+                    root = root.__cause__ or root.__context__
+                out = f"{type(e).__name__}<-{type(root).__name__}"
+            hooks = [t for t in trace if t.endswith("_V1")]
+        finally:
+            for nm in names:
+                globals().pop(nm, None)
+        if len(hooks) != 1:
+            ctx.violation(case, {"outcome": out, "hook_runs": len(hooks)}, "the selected variant's pre-deserialize hook runs exactly once per call", "an exception raised inside the variant made the dispatcher call it again", lambda f: False)
+        elif "SuitableVariantNotFoundError" in out:
+            ctx.violation(case, {"outcome": out}, "an exception raised inside the selected variant is not reported as a missing variant", "exception from inside the variant relabelled SuitableVariantNotFoundError", lambda f: False)
+
+
 def run(ctx):
     ctx.rule = RULE
     ctx.lean_check("Mashu.Props.C19", THEOREMS, extra_targets=["Mashu.Dispatch"])
     run_nofield_variants(ctx, 60 if ctx.tier == "quick" else 600)
+    run_field_variant_errors(ctx, 60 if ctx.tier == "quick" else 600)
     n = 500 if ctx.tier == "quick" else 9000
     done = 0
     while done < n and ctx.time_left() > 40:
@@ -497,6 +569,8 @@ def replay(ctx, body):
         c19_recursive.run_recursive(ctx, 60)
     elif c and "nofield" in c:
         run_nofield_variants(ctx, 60)
+    elif c and "field_variant_error" in c:
+        run_field_variant_errors(ctx, 80)
     elif c:
         run_families(ctx, [c["family"]])
     return ctx.finish()
